@@ -63,3 +63,65 @@ def differential(res, prefix, r, makers, n, same_prob=0.4):
                               f"{str(ref[0] if part == 'result' else ref[1])[:200]}",
                               {**wit, "tb": short_tb(o[1]) if o[0] == "exc" else None})
                 break
+
+
+def abandon(res, prefix, r, makers, n):
+    """What every driver of the library does when it gives up on a sequence part-way (a send raised, the caller was
+    cancelled): `seq.close()` in a finally block.  Closing must be quiet at every point of every sequence - a generator that
+    answers the close with another command raises RuntimeError there and hides the error the driver was about to report -
+    and a closed sequence sends nothing more."""
+    from dali.command import Command
+    names = sorted(makers)
+    for t in range(n):
+        nm = r.choice(names)
+        sd = r.getrandbits(40)
+        bus, gen, probe = makers[nm](random.Random(sd))
+        total = 0
+        try:                                    # length of the complete run, to aim the abandon point inside it
+            bus.run_sequence(gen)
+        except Exception:
+            pass
+        total = bus.n_commands
+        bus, gen, probe = makers[nm](random.Random(sd))
+        stop_after = r.randint(0, max(0, total))
+        sent = 0
+        resp = None
+        finished = False
+        while sent < stop_after:
+            try:
+                item = gen.send(resp)
+            except StopIteration:
+                finished = True
+                break
+            except Exception:
+                finished = True
+                break
+            resp = None
+            if isinstance(item, Command):
+                try:
+                    resp = bus.send(item)
+                except Exception:
+                    finished = True
+                    break
+                sent += 1
+        res.evaluations += 1
+        res.distinct += 1
+        res.hit("abandoned_sequences")
+        wit = {"sequence": nm, "seed": sd, "abandoned_after_commands": sent, "complete_run_commands": total}
+        before = bus.n_commands
+        try:
+            gen.close()
+        except BaseException as e:  # noqa - the witness
+            res.violation(f"{prefix}/abandon/close-raised/{type(e).__name__}/{nm}",
+                          f"{nm}: closing the sequence after {sent} of {total} commands raised {type(e).__name__}: {e} - a driver's "
+                          f"`finally: seq.close()` turns whatever made it give up into this", {**wit, "tb": short_tb(e)})
+            continue
+        try:
+            gen.send(None)
+            res.violation(f"{prefix}/abandon/alive-after-close/{nm}", f"{nm}: the closed sequence still yields", wit)
+        except StopIteration:
+            pass
+        except Exception:
+            pass
+        if bus.n_commands != before:
+            res.violation(f"{prefix}/abandon/sent-after-close/{nm}", f"{nm}: commands were sent after the close", wit)
